@@ -1,2 +1,66 @@
+# C14(b): allocation-failure / abandonment / overflow enumeration over TLC-generated polyhedron histories.
+import os, json, time, collections
+from . import core, tracelib, polylib
+
+SPEC = polylib.SPEC
+# operations whose interpretation in the harness is itself exception-safe (no raw temporaries owned by the harness)
+FAULT_OPS = ["new", "from_cs", "from_gs", "from_cgs", "copy_from", "assign", "swap", "conv_topo", "destroy",
+             "add_constraint", "refine_with_constraint", "add_constraints", "refine_with_constraints", "add_generator", "add_generators",
+             "add_congruence", "add_congruences", "intersection", "poly_hull", "poly_difference", "time_elapse", "positive_time_elapse",
+             "simplify_using_context", "hull_if_exact", "topological_closure", "affine_image", "affine_preimage", "gen_affine_image",
+             "gen_affine_preimage", "bounded_affine_image", "bounded_affine_preimage", "gen_affine_image_lhs", "gen_affine_preimage_lhs",
+             "add_dims_embed", "add_dims_project", "expand", "concatenate", "remove_dims", "remove_higher", "fold", "unconstrain",
+             "unconstrain_set", "map_dims", "is_empty", "min_constraints", "min_generators", "constraints", "generators", "contains",
+             "strictly_contains", "is_disjoint_from", "equals", "is_bounded", "is_universe", "relation_with_constraint",
+             "relation_with_generator", "maximize", "minimize_pt", "bounds_from_above", "affine_dimension", "contains_integer_point",
+             "is_topologically_closed", "constrains", "OK"]
+MODES = {0: "alloc", 1: "abandon", 2: "overflow"}
+
+
 def run_faults(run):
-    pass
+    q = run.quick()
+    lib = core.build_lib()
+    exe = core.build_harness("fault", ["fault.cc"], lib, flags="-I%s" % core.HARN)
+    lib8 = core.build_lib("int8")
+    exe8 = core.build_harness("fault8", ["fault.cc"], lib8, flags="-I%s" % core.HARN)
+    plans = [(0, exe, dict(maxlen=7, maxdim=2, ill=5, coef=2, num=(250 if q else 3000)), 60 if q else 600),
+             (0, exe, dict(maxlen=6, maxdim=3, ill=5, coef=3, num=(120 if q else 1500)), 25 if q else 300),
+             (1, exe, dict(maxlen=8, maxdim=3, ill=0, coef=3, num=(400 if q else 4000)), 150 if q else 1500),
+             (2, exe8, dict(maxlen=8, maxdim=3, ill=0, coef=3, num=(1500 if q else 15000)), 800 if q else 8000)]
+    pos = collections.Counter()
+    thrown = collections.Counter()
+    for mode, ex, pl, cap in plans:
+        t0 = time.time()
+        progs = tracelib.gen_histories(run, SPEC, "PolyHist", polylib.hist_cfg(pl["maxlen"], pl["maxdim"], pl["ill"], pl["coef"], FAULT_OPS, True),
+                                       pl["num"], 26)[:cap]
+        t1 = time.time()
+        executed = tracelib.execute(run, ex, progs, polylib.flat, args=["120", str(mode)])
+        t2 = time.time()
+        rej, und, nev, failed = tracelib.validate(run, SPEC, "FaultTrace", os.path.join(SPEC, "FaultTrace.cfg"), executed)
+        nf = 0
+        for prog, evs in executed:
+            for line in evs:
+                if line.startswith('{"e":"Fault"'):
+                    nf += 1
+                    e = json.loads(line)
+                    thrown[(MODES[mode], e["thrown"])] += 1
+                    run.note_case(("fault", MODES[mode], e["op"], e["thrown"]))
+        pos[MODES[mode]] += nf
+        core.log("fault plan %s dim<=%d len=%d: %d histories, %d fault positions (gen %.1fs, exec %.1fs, validate %.1fs), rejected %d, tlc-failed %d" % (
+            MODES[mode], pl["maxdim"], pl["maxlen"], len(progs), nf, t1 - t0, t2 - t1, time.time() - t2, len(rej), len(failed)))
+        run.cov["traces_validated_against_impl"] += len(executed) - len(failed)
+        for gi, msg in failed:
+            core.log("  validator could not process a fault history: %s" % msg.replace("\n", " ")[-300:])
+        for r in rej:
+            ev = None
+            try:
+                ev = json.loads(r["events"][r["index"]])
+            except Exception:
+                pass
+            op = r["op"]
+            if op in ("Crash", "Hang"):
+                op = "?"
+            sig = {"domain": "fault-" + MODES[mode], "op": op, "why": r["why"]}
+            run.violation(sig, {"program": r["prog"], "event_index": r["index"], "event": ev, "why": r["why"], "mode": MODES[mode]})
+    run.cov["fault_positions"] = dict(pos)
+    run.cov["fault_outcomes"] = {"%s:%s" % k: v for k, v in sorted(thrown.items())}
